@@ -33,7 +33,7 @@ func init() {
 			"methods are the documented applier path and must work. (2) An applier goroutine applies a generated entry stream (puts, deletes and, at low weight, merge entries) through the real " +
 			"EngineApplier while 2-6 client goroutines hammer the embedded and remote mutators and a sampler reads IsReadOnly/node info: every applied entry must be visible, no client write " +
 			"ever, every client mutation refused, the read-only flag never observed off. (3) GetNodeInfo of standalone, primary and replica managers is compared with their configuration. " +
-			"distinct = hash(seed parameters, stream); non-trivial = >= 1 refused mutation of every enumerated entry point and >= 1 entry applied while clients were writing",
+			"Node information is compared again after Manager.Stop with the still-refused writes; the Compact RPC is also called with force=true. distinct = hash(seed parameters, stream); non-trivial = >= 1 refused mutation of every enumerated entry point and >= 1 entry applied while clients were writing",
 		Assumptions: []string{"flush and compaction requests are maintenance, not client mutations: they are required only to leave the data unchanged"},
 		NumCases: func(tier string) int {
 			if tier == "thorough" {
